@@ -83,8 +83,8 @@ Lemma targets_sound : forall fs cp w ps,
 Proof.
   intros fs cp w ps W H. unfold include_targets in H.
   destruct (parent cp) as [dir|] eqn:Ep; [|discriminate].
-  destruct (parse_pattern (path_string (canonicalize (join dir w)))) as [ts|] eqn:Et; [|discriminate].
-  assert (T : target_tokens cp w = Some ts) by (unfold target_tokens; rewrite Ep; exact Et).
+  destruct (parse_pattern (path_string (canonicalize (join dir w)))) as [ts| |] eqn:Et; [|discriminate|discriminate].
+  assert (T : target_tokens cp w = Some ts) by (unfold target_tokens; rewrite Ep, Et; reflexivity).
   remember (sort_paths (glob_keys fs ts)) as qs eqn:Eq.
   assert (ps = qs /\ qs <> []) as [E Ne].
   { destruct qs; [discriminate|]. injection H as H. split; [auto|discriminate]. }
@@ -109,7 +109,9 @@ Proof.
       + intros [H1 H2]. exists ts. repeat split; assumption.
       + intros [ts' [H0 [H1 H2]]]. rewrite T in H0. injection H0 as H0. subst ts'. split; assumption. }
   unfold include_targets. unfold target_tokens in T.
-  destruct (parent cp) as [dir|]; [|discriminate]. rewrite T.
+  destruct (parent cp) as [dir|]; [|discriminate].
+  destruct (parse_pattern (path_string (canonicalize (join dir w)))) as [ts0| |]; try discriminate.
+  injection T as T. subst ts0.
   rewrite E. reflexivity.
 Qed.
 
@@ -125,7 +127,9 @@ Lemma targets_empty : forall fs cp w ts,
   include_targets fs cp w = inl IONotFound.
 Proof.
   intros fs cp w ts T H. unfold include_targets. unfold target_tokens in T.
-  destruct (parent cp) as [dir|]; [|discriminate]. rewrite T.
+  destruct (parent cp) as [dir|]; [|discriminate].
+  destruct (parse_pattern (path_string (canonicalize (join dir w)))) as [ts0| |]; try discriminate.
+  injection T as T. subst ts0.
   unfold glob_keys. rewrite filter_none; [reflexivity|].
   intros k Hk. destruct (matches_with ts (path_string k)) eqn:E; [|reflexivity].
   apply matches_with_iff in E. exfalso. exact (H k Hk E).
@@ -317,6 +321,40 @@ Proof.
   intros fs cp w ts pre post out W T H X.
   destruct (proj1 (proj2 (load_complete_mut fs W)) _ _ _ X) as [n Hn].
   destruct (empty_glob_is_error fs cp w ts T H (load n fs) pre post) as [_ [_ [ND _]]].
+  rewrite (Hn n (le_n n)) in ND. apply ND. reflexivity.
+Qed.
+
+(* ---------- an include whose pattern is invalid (a `[` that is never closed) ---------- *)
+
+Theorem invalid_glob_is_error : forall fs cp dir w,
+  parent cp = Some dir ->
+  parse_pattern (path_string (canonicalize (join dir w))) = PatternError ->
+  forall ld pre post,
+    include_targets fs cp w = inl InvalidIncludeGlob /\
+    load_entries ld fs cp (Inc w :: post) = ([], Failed InvalidIncludeGlob) /\
+    snd (load_entries ld fs cp (pre ++ Inc w :: post)) <> Done /\
+    (forall t, load_entries ld fs cp pre = (t, Done) ->
+       load_entries ld fs cp (pre ++ Inc w :: post) = (t, Failed InvalidIncludeGlob)).
+Proof.
+  intros fs cp dir w Ep E ld pre post.
+  assert (T : include_targets fs cp w = inl InvalidIncludeGlob).
+  { unfold include_targets. rewrite Ep, E. reflexivity. }
+  assert (L : load_entries ld fs cp (Inc w :: post) = ([], Failed InvalidIncludeGlob)).
+  { cbn [load_entries]. rewrite T. reflexivity. }
+  split; [exact T|]. split; [exact L|]. split.
+  - rewrite load_entries_app. apply then_not_done_r. rewrite L. discriminate.
+  - intros t Ht. rewrite load_entries_app, Ht, L. cbn. rewrite app_nil_r. reflexivity.
+Qed.
+
+(* such an include stands for nothing: no expansion *)
+Corollary invalid_glob_no_expansion : forall fs cp dir w pre post out,
+  wf_fs fs -> parent cp = Some dir ->
+  parse_pattern (path_string (canonicalize (join dir w))) = PatternError ->
+  ~ expands_entries fs cp (pre ++ Inc w :: post) out.
+Proof.
+  intros fs cp dir w pre post out W Ep E X.
+  destruct (proj1 (proj2 (load_complete_mut fs W)) _ _ _ X) as [n Hn].
+  destruct (invalid_glob_is_error fs cp dir w Ep E (load n fs) pre post) as [_ [_ [ND _]]].
   rewrite (Hn n (le_n n)) in ND. apply ND. reflexivity.
 Qed.
 
